@@ -216,6 +216,54 @@ fn check_committee(weights: &[u64], seed: u64, tier: Tier) -> Out {
     out
 }
 
+const L2_IGNORE: &[&str] = &["agreement", "unverified_block", "store_rewritten"];
+
+/// The L2 explicit-state search (three real replicas of K4 + signing adversary, see l2.rs) with the
+/// monitor "once a quorum voted (v,n,h), no correct replica signs (v'>v, n, h'!=h)".
+fn history_level(args: &Args, rep: &mut Report) -> serde_json::Value {
+    use std::time::{Duration, Instant};
+    let max_view = args.tier.pick(2, 3);
+    let total = args.tier.pick(30, 1500);
+    let pl = super::c01::placements();
+    let mut runs = vec![];
+    let mut quorums_seen = 0usize;
+    for (k, (weights, faulty, name)) in pl.iter().enumerate() {
+        let cfg = super::l2::L2Cfg { max_view, faulty: *faulty, weights: weights.clone(), max_states: args.tier.pick(300_000, 20_000_000), deadline: Instant::now() + Duration::from_secs(total / pl.len() as u64), seed: args.seed, ignore: L2_IGNORE };
+        let (_sys, _t, res) = super::l2::explore(&cfg, 0);
+        for (key, wh, rpl) in &res.violations {
+            rep.violations.push(Violation { key: format!("{key}@{k}"), what: format!("{wh}\n  instance: K4 weights {weights:?}, {name}"), replay: rpl.clone() });
+        }
+        quorums_seen += res.blocks_finalized_max;
+        runs.push(json!({"placement": name, "states": res.states, "transitions": res.transitions, "real_handler_executions": res.real_steps, "completed_bfs_depth": res.completed_depth, "fixed_point_reached": res.fixed_point, "capped": res.capped, "most_blocks_finalized_by_one_replica": res.blocks_finalized_max, "highest_view_reached": res.max_view}));
+        if !rep.violations.is_empty() {
+            break;
+        }
+    }
+    if rep.violations.is_empty() && quorums_seen == 0 {
+        rep.machinery_errors.push("vacuous: the history-level search never finalized a block (no commit quorum formed)".into());
+    }
+    json!({"rule": "L2 explicit-state search over three real replicas of K4 + signing adversary (same graph as C01), monitor: once correct votes in the pool + faulty weight reach the quorum for (v,n,h), no correct replica signs a commit vote (v'>v, n, h'!=h)", "max_view": max_view, "runs": runs})
+}
+
+fn history_replay(args: &Args, rp: &serde_json::Value) -> Report {
+    use std::time::{Duration, Instant};
+    let mut rep = Report::new("C02", "exploration");
+    let pl = super::c01::placements();
+    let path: Vec<String> = rp["replay"]["path"].as_array().map(|a| a.iter().filter_map(|x| x.as_str().map(|s| s.to_string())).collect()).unwrap_or_default();
+    let k: usize = rp["key"].as_str().and_then(|s| s.rsplit('@').next()).and_then(|s| s.parse().ok()).unwrap_or(0);
+    let (weights, faulty, _) = &pl[k.min(pl.len() - 1)];
+    let cfg = super::l2::L2Cfg { max_view: args.tier.pick(2, 3), faulty: *faulty, weights: weights.clone(), max_states: 0, deadline: Instant::now() + Duration::from_secs(600), seed: args.seed, ignore: L2_IGNORE };
+    match super::l2::replay(&cfg, &path) {
+        Ok(vs) => {
+            for (key, wh) in vs.into_iter().filter(|(k, _)| !L2_IGNORE.contains(&k.as_str())) {
+                rep.violations.push(Violation { key, what: wh, replay: rp["replay"].clone() });
+            }
+        }
+        Err(e) => rep.machinery_errors.push(e),
+    }
+    rep
+}
+
 pub fn run(args: &Args) -> Report {
     let mut rep = Report::new("C02", "exploration");
     let mut committees: Vec<Vec<u64>> = vec![vec![2, 2, 1, 1], vec![1, 1, 1, 1, 1], vec![1; 6]];
@@ -227,6 +275,9 @@ pub fn run(args: &Args) -> Report {
         committees.push(vec![2, 2, 2, 2, 1, 1, 1]);
     }
     if let Some(r) = &args.replay {
+        if r["replay"]["harness"] == "l2" {
+            return history_replay(args, r);
+        }
         let w: Vec<u64> = r["replay"]["weights"].as_array().map(|a| a.iter().map(|x| x.as_u64().unwrap()).collect()).unwrap_or(vec![1; 6]);
         let o = check_committee(&w, args.seed, args.tier);
         for (k, (wh, rp)) in o.viol {
@@ -248,6 +299,8 @@ pub fn run(args: &Args) -> Report {
     for (k, (cnt, w, r)) in by {
         rep.violations.push(Violation { key: k, what: format!("{w} ({cnt} committees affected)"), replay: r });
     }
+    // history level: the L2 search of C01 with only the history monitor reported
+    let hist = history_level(args, &mut rep);
     if repro == 0 || lemma == 0 {
         rep.machinery_errors.push(format!("vacuous: re-proposals {repro}, lemma cases {lemma}"));
     }
@@ -263,7 +316,7 @@ pub fn run(args: &Args) -> Report {
             {"committee": [1,1,1,1,1,1], "certificate": "signers {0,1} report A@v+1, {2,3} report A@v, {5} nothing", "expect": "re-propose A (votes for the same block in different views count together)"},
             {"committee": [2,2,1,1], "certificate": "weight-2 signer reports A@v, the other weight-2 signer B@earlier, weight-1 signer nothing", "expect": "exactly one sub-quorum (3 of 6)"},
         ],
-        "history_level": "the history-level clause (no correct replica votes for a different block at a certified number in a later view) is evaluated on the L2 graph, see C01",
+        "history_level": hist,
     });
     rep.assumptions = vec!["the decision function does not look at signatures; certificates are built unsigned (their verification is C04's subject)".into(), "committees above 6-7 validators and content alphabets beyond the 18 listed are outside the scope".into()];
     rep
